@@ -294,7 +294,8 @@ func c14Scale(c *Ctx, r *Report) {
 		// degenerate range guard: some fact X == Y false on two locals that are the divisor's operands
 		c4 := false
 		if be, ok := ast.Unparen(rs.Results[0]).(*ast.BinaryExpr); ok && be.Op == token.QUO {
-			if d, ok := ast.Unparen(be.Y).(*ast.BinaryExpr); ok && d.Op == token.SUB {
+			// the divisor itself or a local naming it (span := max - min)
+			if d, ok := ast.Unparen(unalias(info, fi.Decl, be.Y)).(*ast.BinaryExpr); ok && d.Op == token.SUB {
 				a, b := identObj(info, d.X), identObj(info, d.Y)
 				for _, f := range facts {
 					if fe, ok := ast.Unparen(f.Cond).(*ast.BinaryExpr); ok && f.Tag == nil {
